@@ -213,6 +213,10 @@ func runC09(w *World, r *Report) {
 		}
 	}
 
+	// every mutex-protected field is accessed under its mutex everywhere
+	r.Rule("C09.guarded-by", "a field of a struct with a sync.Mutex that is accessed with the mutex held somewhere (and written somewhere) is accessed with it held everywhere outside constructors", 10)
+	ruleGuardedBy(w, r, "C09.guarded-by", guardedByExceptions, "compose", "schema", "internal", "callbacks", "flow", "components", "utils")
+
 	r.Rule("C09.append-alias", "append on a slice held in a shared object is stored back to the same field or starts from a fresh slice", 1)
 	armedOwners := map[*types.Named]bool{}
 	for t := range compiled {
@@ -509,3 +513,5 @@ func pointeeAllocs(v ssa.Value, d int) []*ssa.Alloc {
 	}
 	return nil
 }
+
+var guardedByExceptions = map[string]string{}
